@@ -398,5 +398,5 @@ def finalize(ctx):
 
 
 def gen_cases(tier, seed):
-    n = 300 if tier == "quick" else 5000
+    n = 300 if tier == "quick" else 25000
     return [{"idx": i, "seed": seed, "auto": i % 2, "cost": 1} for i in range(n)]
